@@ -105,6 +105,7 @@ class Flags(object):
         self.max_fail_depth = 0         # deepest fan-out nesting level at which a branch failed
         self.fanout_handled = 0         # fan-out failures that were then retried or caught by the fan-out state
         self.marker_value = False       # a branch output equals an in-band marker string
+        self.big_data = False           # some state output is within an order of magnitude of the data quota
         self.handled_tie = False        # simultaneous branch failures under a fan-out with its own Retry/Catch
         self.cancel_tie = False         # a sibling of a failed branch does something at the very instant of the failure
         self.notes = []
@@ -500,6 +501,13 @@ class Interp(object):
             if kind == "error":
                 return Branch(False, None, t2, value)
             self.out.transitions.append((t2, "exited", name, copy.deepcopy(value)))
+            try:
+                # (the model knows nothing of the 262144-character data quota: a run whose data comes anywhere near it -
+                # nested Parameters copying "$" or $$.Execution.Input multiply a payload quickly - is marked and left out)
+                if len(json.dumps(value)) > 40000:
+                    self.flags.big_data = True
+            except (TypeError, ValueError):
+                pass
             if nxt is None:
                 return Branch(True, value, t2)
             name, data, t = nxt, value, t2
